@@ -4,8 +4,8 @@ from common_tb import COMMON_TB
 CFG = dict(
     id="C06", tie="Tie.C06", n_quick=300, n_thorough=1600, thorough_seeds=3,
     rule="every case is a whole run on a fresh real pkg/database DB (tmpfs dir when available): 3/4 of the cases are "
-         "CONCURRENT histories - 2..5 goroutines (2..8 thorough, half of them with background FlushIndex/CompactIndex "
-         "loops) x 6..21 calls over 4 plain keys + 2 reference keys + 2 sorted sets with the full operation mix (Set, "
+         "CONCURRENT histories - 2..5 goroutines (2..8 thorough; a third of the thorough histories with a background FlushIndex loop, a third "
+         "with FlushIndex+CompactIndex loops) x 6..21 calls over 4 plain keys + 2 reference keys + 2 sorted sets with the full operation mix (Set, "
          "multi-key Set, conditional Set with KeyMustExist/KeyMustNotExist/KeyNotModifiedAfterTx, racing "
          "KeyMustNotExist creators of one key, Get-then-conditional-Set read-modify-write, Delete, SetReference bound/"
          "unbound, ZAdd, ExecAll with Kv/Ref/ZAdd incl. references bound to the transaction being committed; Get "
@@ -27,7 +27,10 @@ CFG = dict(
         "atomic counter (a wider interval than the call's own: sound for the real-time order used by the checker)",
         "checker: only valid_lin (decides each clause of the definition of linearizable for a proposed order) is "
         "covered by checker_sound; the search build_lin and the Go transliteration used as falsifier are heuristics; "
-        "check_relaxed (accepts additionally the two recorded known-finding behaviours) is used by case_ok only",
+        "check_relaxed (accepts additionally the two recorded known-finding behaviours of Get-through-reference and "
+        "SinceTx snapshot reuse) is used by case_ok only; histories recorded with CompactIndex in the background are "
+        "tied only on the verdict (CHistCompact: Coq check = Go check), because the machine with its compaction step "
+        "admits non-linearizable histories there (third known finding)",
         "modelled: the sequential KV specification (Lin/Spec.v: Set/Delete/SetReference/ZAdd/ExecAll with "
         "preconditions and the refusals of reference.go/sorted_set.go/all_ops.go; Get latest/SinceTx/AtTx/AtRevision "
         "incl. one-level reference resolution, GetAll, Scan, ZScan, History, Count) tied op-by-op by the sequential "
